@@ -115,6 +115,11 @@ pub struct NetPolicy {
     /// before the last byte before it is due; on a real network it can trail the data
     #[serde(default)]
     pub eof_delay_ms: u32,
+    /// the transport supports vectored writes natively (`is_write_vectored()`): the slices of
+    /// one `poll_write_vectored` call are taken as one contiguous offer, so a short count may
+    /// end in the middle of any slice; otherwise tokio's default applies (first non-empty slice)
+    #[serde(default)]
+    pub vectored: bool,
 }
 
 impl Default for NetPolicy {
@@ -129,6 +134,7 @@ impl Default for NetPolicy {
             write_pending: vec![0],
             write_pending_ms: 1,
             eof_delay_ms: 0,
+            vectored: false,
         }
     }
 }
